@@ -2,8 +2,8 @@
    abstract-geometry hypotheses of the pdffit / discus no-drift theorems have a model (cubic lattice). *)
 From Coq Require Import List Bool Arith NArith ZArith Lia String.
 From Coq Require Import Ascii.
-From DS Require Import Base.C04_Text Base.C04_Decimal Model.C04_Fmt Gen.C04_FmtSpecs Model.C04_Xyz Model.C04_Pdffit Model.C04_Discus.
-From DS Require Import Proofs.C04_Pdffit Proofs.C04_Discus.
+From DS Require Import Base.C04_Text Base.C04_Decimal Model.C04_Fmt Gen.C04_FmtSpecs Model.C04_Xyz Model.C04_Pdffit Model.C04_Discus Model.C04_Pdb.
+From DS Require Import Proofs.C04_Pdffit Proofs.C04_Discus Proofs.C04_Pdb.
 Import ListNotations.
 
 Definition ex_d (neg : bool) (m : N) (e : nat) : dec := Dec neg m e.
@@ -55,3 +55,27 @@ Qed.
 
 Example bw_identity_is_a_model : forall b, dq (fprec discus_w_atom 3) (dq (fprec discus_w_atom 3) b) = dq (fprec discus_w_atom 3) b.
 Proof. intros b. apply dq_idem. Qed.
+
+(* pdb: a representable structure with a title, a non-default cell, an isotropic and an anisotropic atom (negative
+   coordinate filling its column), and a model of the geometry hypotheses *)
+Definition ex_bstru : bstru :=
+  BStru (s"PbTe  rock salt") ((ex_d false 6461 3, ex_d false 6461 3, ex_d false 64612345678 10), (ex_d false 90 0, ex_d false 90 0, ex_d false 120 0))
+        [BAtom (s"Pb1") (s"Pb") (ex_d true 123456499 6, ex_d false 0 0, ex_d false 99999949 4) (ex_d false 5 1) (ex_d false 1234 3) true
+               ((ex_d false 15 3, ex_d false 15 3, ex_d false 15 3), (ex_d false 0 0, ex_d false 0 0, ex_d false 0 0));
+         BAtom (s"Te") (s"Te") (ex_d false 323 2, ex_d false 323 2, ex_d false 323 2) (ex_d false 1 0) (ex_d false 95 2) false
+               ((ex_d false 1234 1, ex_d false 200 0, ex_d false 3105 1), (ex_d true 15 0, ex_d false 0 0, ex_d false 749 3))].
+Example repr_pdb_example : repr_pdb ex_bstru = true.
+Proof. vm_compute. reflexivity. Qed.
+Example rt_pdb_example : match write_pdb ex_bstru with Some t => read_pdb t | None => None end = Some (canon_pdb ex_bstru).
+Proof. vm_compute. reflexivity. Qed.
+
+Definition ex_uof (d : dec) : dec := d.
+Example pdb_geometry_hypotheses_have_a_model :
+  (forall (c : d6) v, q3 pdb_w_atom 0 ((fun _ x => x) c (q3 pdb_w_atom 0 v)) = q3 pdb_w_atom 0 v) /\
+  (forall b, dq (fprec pdb_w_atom 4) ((fun x => x) (dq (fprec pdb_w_atom 4) b)) = dq (fprec pdb_w_atom 4) b) /\
+  (forall z, uint (ex_uof (dnorm (zdec z))) = z).
+Proof.
+  split; [intros; apply q3_idem|]. split; [intros; apply dq_idem|]. intros z.
+  unfold zdec, dnorm, ex_uof, uint, quantN. cbn [dmag dexp dneg normN Nat.add Nat.leb Nat.sub]. rewrite pow10_0, N.mul_1_r, N2Z.inj_abs_N.
+  destruct (z <? 0)%Z eqn:E; [apply Z.ltb_lt in E|apply Z.ltb_ge in E]; lia.
+Qed.
